@@ -69,9 +69,11 @@ const (
 	c14Missing
 	c14Dir
 	c14SameTwice
-	c14DevStdin // the path /dev/stdin as a named file
-	c14Fifo     // a named pipe that a writer fills after the binary has opened it
-	c14Proc     // a file whose size the file system reports as 0 although it has content
+	c14DevStdin     // the path /dev/stdin as a named file
+	c14Fifo         // a named pipe that a writer fills after the binary has opened it
+	c14Proc         // a file whose size the file system reports as 0 although it has content
+	c14MissingFirst // a missing file in front of a readable one: what can be opened later does not make up for it
+	c14MissingMid   // ... and between two readable ones
 	c14NSource
 )
 
@@ -227,6 +229,14 @@ func c14Check(c *fw.Ctx, s c14Spec, al c14Alpha) *fw.Violation {
 		argv = append(argv, in1, filepath.Join(dir, "missing.json"))
 		refusedEarly = true
 		nfiles = 2
+	case c14MissingFirst:
+		argv = append(argv, filepath.Join(dir, "missing.json"), in1)
+		refusedEarly = true
+		nfiles = 2
+	case c14MissingMid:
+		argv = append(argv, in1, filepath.Join(dir, "missing.json"), in2, in1)
+		refusedEarly = true
+		nfiles = 4
 	case c14SameTwice:
 		// the awk two-pass idiom: the same path named twice is read twice
 		argv = append(argv, in1, in1)
@@ -390,7 +400,7 @@ func c14SelectorConcat(c *fw.Ctx, prog, input, e1, e2 string) *fw.Violation {
 func init() {
 	register(&fw.Prop{
 		ID: "C14",
-		Rule: "the full product {inline, -f} x {stdin, one file, two files, a missing file, a directory as file, the same file twice, /dev/stdin as a named file, a named pipe filled after it is opened, a /proc file whose reported size is 0} x {no selector, one, two, a failing one, an index past the end} x {no -o, -o -, -o FILE, -o into a missing directory} x 17 programs (printf without a final newline, empty, replacing $, silent, printing, mutating $, BEGINFILE replacing $, exit, syntax error, runtime error before / after output, $file, END, exit in BEGIN, state across values, CR LF / lone CR / LF CR inside literals and between statements) x 8 inputs (array, object, scalar, two values, empty, malformed, strings full of % directives, a byte order mark before the document), on the real binary; " +
+		Rule: "the full product {inline, -f} x {stdin, one file, two files, a missing file last / first / between readable ones, a directory as file, the same file twice, /dev/stdin as a named file, a named pipe filled after it is opened, a /proc file whose reported size is 0} x {no selector, one, two, a failing one, an index past the end} x {no -o, -o -, -o FILE, -o into a missing directory} x 17 programs (printf without a final newline, empty, replacing $, silent, printing, mutating $, BEGINFILE replacing $, exit, syntax error, runtime error before / after output, $file, END, exit in BEGIN, state across values, CR LF / lone CR / LF CR inside literals and between statements) x 8 inputs (array, object, scalar, two values, empty, malformed, strings full of % directives, a byte order mark before the document), on the real binary; " +
 			"oracle: the in-process library run of the same program, selectors and inputs (stdout, outcome, JSON output) plus the wrapper laws (exit 0 iff success and nothing refused, diagnostic on stderr otherwise, no stack trace, -o FILE == bytes of -o -, a missing file refused before any output); " +
 			"-r E1 -r E2 == -r E1 followed by -r E2 for 4 stateless (mutating) programs x 2 documents x all ordered pairs of 5 overlapping selectors; and -r E == BEGINFILE { $ = E } for every program without BEGINFILE/ENDFILE x every input x 12 selectors (three end in an index past the end or under a missing member, three call num / json / a method); thorough doubles the three alphabets; a state is (source, -o mode, selector list, -f, library outcome); non-trivial = same",
 		Plan:        func(t fw.Tier) int { return 2 * c14NSource * c14NOut },
